@@ -8,7 +8,8 @@
 //
 //	(a) no race report, no runtime fatal error, no unexpected exit of the child;
 //	(b) probes around the real gun factory: one gun object per instance, bound once,
-//	    never two overlapping Shoot calls on one gun;
+//	    never two overlapping Shoot calls on one gun; around the real provider: an ammo object is
+//	    held by one instance at a time and is given back once (also when discard_overflow drops the shot);
 //	(c) a deep dump of every shared definition the provider holds (scenario steps,
 //	    header / metadata maps, payloads, variable storage, preloaded ammo) is the
 //	    same before and after the run;
@@ -38,6 +39,7 @@ import (
 	"verif/harness/internal/pand"
 	"verif/harness/internal/vf"
 
+	"github.com/yandex/pandora/core"
 	"github.com/yandex/pandora/core/engine"
 	"go.uber.org/zap"
 	"go.uber.org/zap/zapcore"
@@ -60,6 +62,8 @@ type Result struct {
 	Logged           []string  `json:"warnings_logged,omitempty"`
 	TransportErrors  int       `json:"transport_errors"`
 	StepFailures     int       `json:"invocations_dropped_by_a_failed_postprocessor,omitempty"`
+	Discarded        int       `json:"shots_discarded_as_overflow,omitempty"`
+	DiscardedOverlap int       `json:"shots_discarded_in_rounds_with_overlapping_shots,omitempty"`
 	File             string    `json:"file,omitempty"`
 }
 
@@ -114,6 +118,18 @@ func runRound(c Case, res *Result) {
 	realProvider := pc.Provider
 	pp := newProbeProvider(realProvider, viol)
 	pc.Provider = pp
+	if bh := c.Behind; bh != nil {
+		// core.Schedule: "Start SHOULD be called once, before any Next call" - the engine leaves it to the first Next; here
+		// the pool's schedule is started in the past, so the sections that lie before the run are overdue from the beginning
+		newSchedule := pc.NewRPSSchedule
+		pc.NewRPSSchedule = func() (core.Schedule, error) {
+			s, err := newSchedule()
+			if err == nil && s != nil {
+				s.Start(time.Now().Add(-time.Duration(bh.Ms) * time.Millisecond))
+			}
+			return s, err
+		}
+	}
 	before := dumpShared(realProvider)
 	if c.Kind == kindHTTP {
 		// the http provider reads (preload: all of) its ammo inside Run: the baseline is taken when the
@@ -177,12 +193,26 @@ func runRound(c Case, res *Result) {
 	res.Guns.Overlapping += rep.Overlapping
 	res.Guns.Shots += rep.Shots
 	res.Guns.FactoryCalls, res.Guns.Bound, res.Guns.GunsShooting = rep.FactoryCalls, rep.Bound, rep.GunsShooting
+	// every acquired ammo is either shot or, with discard_overflow, dropped by an instance that is behind the schedule
+	discarded := int(pp.acquiredCount() - rep.Shots)
+	// (also without a schedule started in the past: on a stalled machine the instances fall 2 s behind any schedule)
+	if discarded < 0 || !c.DiscardOverflow {
+		discarded = 0 // judged below: the number of shots is wrong
+	}
+	b.discarded = discarded
+	res.Discarded += discarded
+	if rep.MaxActive >= 2 {
+		res.DiscardedOverlap += discarded
+	}
 	served := b.finish()
 	res.Served += served
-	samples, tags := readOutput(c, b.outFile, viol)
+	samples, tags, discardedSamples := readOutput(c, b.outFile, viol)
 	res.Samples += samples
-	if b.strict && samples != served {
-		viol.add("the target served %d requests, the %s aggregator wrote %d samples: every request a gun sends is reported exactly once", served, c.Agg, samples)
+	if b.strict && samples != served+discarded {
+		viol.add("the target served %d requests and %d shots were discarded as overflow, the %s aggregator wrote %d samples: every request a gun sends and every discarded shot is reported exactly once", served, discarded, c.Agg, samples)
+	}
+	if c.Agg == "phout" && discardedSamples != discarded {
+		viol.add("%d ammo were acquired and not shot (discard_overflow), phout holds %d samples tagged %q", discarded, discardedSamples, "discarded")
 	}
 	if b.strict && tags != nil && b.expectTags != nil {
 		want := b.expectTags()
@@ -197,8 +227,11 @@ func runRound(c Case, res *Result) {
 			}
 		}
 	}
-	if rep.Shots != int64(c.Shots) {
-		viol.add("%d shots were fired, the provider was limited to %d ammo and the schedule had more tokens", rep.Shots, c.Shots)
+	if got := pp.acquiredCount(); got != int64(c.Shots) {
+		viol.add("%d ammo were acquired, the provider was limited to %d ammo and the schedule had more tokens", got, c.Shots)
+	}
+	if rep.Shots != int64(c.Shots-discarded) {
+		viol.add("%d shots were fired, the provider was limited to %d ammo and the schedule had more tokens%s", rep.Shots, c.Shots, b.discardedNote())
 	}
 }
 
@@ -599,6 +632,10 @@ func label(c Case, o *vf.Obs, res *Result) {
 	o.ClassIf(res.TransportErrors > 0, "transport_errors_under_load")
 	o.ClassIf(res.StepFailures > 0, "invocations_dropped_after_failed_postprocessor")
 	o.ClassIf(res.StepFailures > 0 && overlap, "invocations_dropped_while_shots_overlap")
+	o.ClassIf(res.Discarded > 0, "shots_discarded_as_overflow")
+	o.ClassIf(res.DiscardedOverlap > 0, "shots_discarded_and_shots_overlap")
+	o.ClassIf(res.Discarded > 0 && c.Plain != nil && c.Plain.Format == "grpcjson", "shots_discarded_with_pooled_ammo")
+	o.ClassIf(res.Discarded > res.Rounds*c.certainDiscards(), "shots_discarded_beyond_the_certain_ones_stalled_machine")
 	if len(res.Logged) > 0 {
 		o.Note("warnings_logged", res.Logged)
 	}
